@@ -259,10 +259,11 @@ impl MqttShared {
 
     /// Close mqtt connection, dont send disconnect message
     pub(super) fn drop_sink(&self, io: bool) {
-        self.clear_queues();
+        // close io first, publish-ack callback must not be able to write
         if io {
             self.io.close();
         }
+        self.clear_queues();
     }
 
     pub(super) fn drop_payload<E>(&self, err: &E)
